@@ -351,6 +351,11 @@ impl MSim {
         self.k.is_done(self.actor)
     }
 
+    /// number of times the master task future has been polled
+    pub fn master_polls(&self) -> u64 {
+        self.k.polls_of(self.actor)
+    }
+
     /// run a user-API future as an actor; its Debug-formatted result is logged as `MCb::Done`
     pub fn call<T: std::fmt::Debug + 'static>(&mut self, name: &str, fut: impl Future<Output = T> + 'static) -> usize {
         let log = self.cb.clone();
